@@ -108,6 +108,7 @@ impl<'a> Dec<'a> {
         n.prop("directive", &self.string()?);
         let args = self.seq(|d| d.string())?;
         n.prop("args", &args.join("\u{1f}"));
+        n.prop("argc", &args.len().to_string());
         self.end("Attribute")?;
         Ok(n)
     }
